@@ -54,11 +54,11 @@ def lift_as(py, sort):
     return lift(py)
 
 
-def holds(term):
+def holds(term, facts=()):
     t = z3.simplify(term)
     if z3.is_true(t): return True
     if z3.is_false(t): return False
-    s = z3.Solver(); s.add(z3.Not(t))
+    s = z3.Solver(); s.add(*facts); s.add(z3.Not(t))
     return s.check() == z3.unsat
 
 
@@ -66,8 +66,8 @@ class Replay:
     """How to call the real function for a counterexample: `call(pyargs) -> value` runs the real code (imported from
     the repository under test); lowering/lifting default to the generic by-sort rules."""
 
-    def __init__(self, call=None, lower=None, lift_result=None, lift_params=None):
-        self.call, self.lower, self.lift_result, self.lift_params = call, lower, lift_result, lift_params
+    def __init__(self, call=None, lower=None, lift_result=None, lift_params=None, facts=None):
+        self.call, self.lower, self.lift_result, self.lift_params, self.facts = call, lower, lift_result, lift_params, facts
 
 
 def import_target(target):
@@ -93,6 +93,8 @@ def native_check(contract, pyargs, outcome):
     rp = contract.replay
     if rp and rp.lift_params: params = rp.lift_params(pyargs)
     else: params = {k: lift_as(pyargs[k], contract.params[k]) for k in contract.params if k in pyargs}
+    facts = rp.facts(pyargs) if rp and rp.facts else ()
+    holds = lambda t: globals()['holds'](t, facts)     # noqa: E731
     for name, r in contract.requires:
         if not holds(r(params)): return False, []
     bad = []
@@ -171,6 +173,9 @@ class Check:
                 self.known_hits.append((key, f['what']))
                 self.say(f'KNOWN-FINDING: property={self.id} {f["what"]} [key={key}]')
             return False
+        if key in [v['key'] for v in self.violations]:
+            self.extra['further_witnesses_of_reported_keys'] = self.extra.get('further_witnesses_of_reported_keys', 0) + 1
+            return True
         path = self.write_replay(dict(rec, key=key, what=what))
         self.violations.append({'key': key, 'what': what, 'replay': path})
         self.say(f'VIOLATION property={self.id} replay={path}' + (' no-failing-input-found' if no_input else ''))
